@@ -170,6 +170,7 @@ def check_opts(chk, tables):
         chk.undecide('Opts::new not found in the binary MIR'); return
     fn = e.func(new[0])
     names = {c: list(tables[c][0]) for c in tables}
+    _TABLES.update(tables)
     cases = []
     for has_path, has_toml, contracts_exists in itertools.product((False, True), repeat=3):
         cases.append((has_path, has_toml, contracts_exists))
@@ -178,6 +179,9 @@ def check_opts(chk, tables):
         for c in ('opt', 'vul', 'qa'):
             pool = names[c][:3] + ['no_such_pattern']
             alts = [VecV(())] + [VecV([Str(a)]) for a in pool] + [VecV([Str(pool[1 % len(pool)]), Str(pool[0])])]
+            # a name listed twice (also in another letter case) with further names behind it: every listed name counts, wherever it stands
+            alts += [VecV([Str(pool[0]), Str(pool[0]), Str(pool[1])]), VecV([Str(pool[1]), Str(pool[0]), Str(pool[1].upper()), Str(pool[2])]),
+                     VecV([Str(pool[0]), Str(pool[0].capitalize()), Str('no_such_pattern')])]
             lists[c] = Choice('list_' + c, alts)
         arg_path, toml_dir = Str(z3.String('arg_path')), Str(z3.String('toml_path'))
         args = Adt('Args', None, (some(arg_path) if has_path else NONE, some(Str('cfg.toml')) if has_toml else NONE))
@@ -245,7 +249,10 @@ def check_opts(chk, tables):
                     problems.append('analyses the %s directory, expected the %s one' % (got_path, want_path))
             for c, vec in (('opt', opt_v), ('vul', vul_v), ('qa', qa_v)):
                 got = [x.variant for x in en_items(vec)]
-                want = [tables[c][0][n] for n in chosen[c]] if has_toml else tables[c][1]
+                want = [tables[c][0][n.lower()] for n in chosen[c]] if has_toml else tables[c][1]
+                if has_toml and len({n.lower() for n in chosen[c]}) < len(chosen[c]):
+                    # a name listed twice: whether its pattern then runs once or twice is not the property's subject, WHICH patterns run is
+                    got, want = sorted(set(got)), sorted(set(want))
                 if got != want:
                     problems.append('%s patterns %r, expected %r' % (c, got, want))
             if problems:
@@ -299,7 +306,27 @@ def report_opts(chk, role, label, why, has_path, has_toml, chosen, contracts_exi
     chk.violation('opts:%s' % role, 'Opts::new with %s: %s' % (label, why), {'job': 'opts_probe', 'argv': argv[1:], 'cwd_layout': os.listdir(d), 'observed': observed})
 
 
+_TABLES = {}
+
+
 def chk_lists(stdout, chosen, has_toml):
+    """do the pattern lists printed by the real Opts::new match the configured names? (repeated names: compared as sets)"""
+    if not has_toml or not _TABLES:
+        return True
+    keys = {'opt': 'optimizations', 'vul': 'vulnerabilities', 'qa': 'qa'}
+    for c, key in keys.items():
+        m = re.search(r'^%s\t\[(.*)\]$' % key, stdout, re.M)
+        if m is None:
+            return False
+        got = [x.strip() for x in m.group(1).split(',') if x.strip()]
+        try:
+            want = [_TABLES[c][0][n.lower()] for n in chosen[c]]
+        except KeyError:
+            return True
+        if len({n.lower() for n in chosen[c]}) < len(chosen[c]):
+            got, want = sorted(set(got)), sorted(set(want))
+        if got != want:
+            return False
     return True
 
 
